@@ -324,7 +324,7 @@ pub fn check(case: &Case, info: &mut CaseInfo) -> Result<(), Fail> {
 pub fn run(ctx: &Ctx, rep: &mut Report) {
     let n = match ctx.tier {
         Tier::Quick => 128,
-        Tier::Thorough => 480,
+        Tier::Thorough => 1_600,
     };
     run_prop(ctx, rep, "restarts", case_strategy(), n, 30, check);
 }
